@@ -90,7 +90,7 @@ def asn_names(tier, name=None):
 TRACE_CFG = "SPECIFICATION Spec\nCONSTANTS\n  W7 = 7\n  W14 = 14\nPOSTCONDITION Accepted\nCHECK_DEADLOCK FALSE\n"
 
 
-def uper_trace(v, pid, exe, vec, zoo, names, domain="uptrace", module="Trace_Uper", chunk=20000):
+def uper_trace(v, pid, exe, vec, zoo, names, domain="uptrace", module="Trace_Uper", chunk=20000, cfg=None):
     """T direction: per-call events of the real writer (tracing wrapper) validated as a behaviour of UperSM."""
     d = outdir(pid)
     tr = os.path.join(d, domain + ".ndjson")
@@ -117,7 +117,7 @@ def uper_trace(v, pid, exe, vec, zoo, names, domain="uptrace", module="Trace_Upe
         part = os.path.join(d, "%s_%d.ndjson" % (domain, ci))
         open(part, "w").write("\n".join(lines[a:b] + [lines[-1]]) + "\n")
         vlib.lint_trace(part)
-        tt = run_tlc(pid, module, TRACE_CFG, tag="%s_%d" % (domain, ci), workers=1, env={"TRACE": part}, deque=True, xss=True, coverage=False, heap="8g",
+        tt = run_tlc(pid, module, cfg or TRACE_CFG, tag="%s_%d" % (domain, ci), workers=1, env={"TRACE": part}, deque=True, xss=True, coverage=False, heap="8g",
                      timeout=3600)
         if tt.violation or not tt.ok():
             at = tt.depth                       # 1-based index of the first event that is not a step of the specification
@@ -189,4 +189,6 @@ def uper_check(v, pid, classes, only_kind=None, with_stream=False, text="", with
         v.cov["stream_histories"] = ssum["histories"]
     if with_trace:
         uper_trace(v, pid, exe, vec, zoo, names)
+        uper_trace(v, pid, exe, vec, zoo, names, domain="uptrace_read", module="Trace_UperRead",
+                   cfg=TRACE_CFG.replace("POSTCONDITION", "  Dev = {}\nPOSTCONDITION"))
     return t, zoo, vec, summ, ssum
